@@ -25,6 +25,8 @@ func runC19(c *Ctx) {
 	c19WriteLog(c)
 	c19Outcomes(c)
 	c19Once(c)
+	c19ExportAll(c)
+	c19Recheck(c, "C19")
 }
 
 // naturalLoops returns header -> set of blocks of the loop.
